@@ -12,7 +12,7 @@ import random
 
 from harness import core, sysrun
 
-MODES = ("plain", "cancel", "kill", "timeout", "sbatchfail", "squeuefail", "write", "hooks", "cyclic", "local", "racing_try", "appendtimeout", "suspend", "resubmit")
+MODES = ("plain", "cancel", "kill", "timeout", "sbatchfail", "squeuefail", "write", "hooks", "cyclic", "local", "racing_try", "appendtimeout", "suspend", "resubmit", "scanerror")
 WRITE_SITES = ["write:job_status.json", "write:cluster_config.json", "write:config_version", "write:job_status_version",
                "write:batch_config", "write:marker_touch", "write:marker_remove", "append:processed_results.csv",
                "consolidate:processed_results.csv", "consolidate:processed_results.csv"]
@@ -24,6 +24,9 @@ def make_case(seed, mode):
     hooks = None
     if mode == "hooks":
         hooks = {k: rng.random() < 0.7 for k in ("setup", "teardown", "node_setup", "node_teardown")}
+        if rng.random() < 0.35:
+            # a teardown / node hook that exits non-zero is logged, it does not stop the submission
+            force = {"hooks_rc": {rng.choice(["teardown", "node_teardown"]): rng.choice([1, 3])}}
     sc = sysrun.gen_scenario(rng, hooks=hooks, cyclic=(mode == "cyclic"), force=force)
     at = rng.randint(5, 140)
     plan = {"strategy": rng.choice(sysrun.STRATEGIES + ["gap_hunter"])}
@@ -66,6 +69,14 @@ def make_case(seed, mode):
         if plan["write_error"][0].startswith("consolidate:"):
             plan["write_error"][1] = rng.randint(1, 3)
         plan["break_stale"] = rng.random() < 0.5
+    elif mode == "scanerror":
+        # the size scan of a finished job's output directory fails (dangling link): the node stops; jobs waiting for
+        # that job must not start, whatever else happens
+        with_deps = [j["name"] for j in sc["jobs"] if any(j["name"] in k["deps"] for k in sc["jobs"])]
+        plan["scan_error"] = rng.choice(with_deps or [j["name"] for j in sc["jobs"]])
+        for g in sc["groups"]:
+            g["try"] = True                      # blockers and dependents in one batch as often as possible
+            g["size"] = max(g["size"], 3)
     elif mode == "resubmit":
         # the submission completes (sometimes after losing a batch), then `jade resubmit-jobs` reruns the failed /
         # canceled / missing jobs and their dependents, and the submission runs to completion a second time
@@ -102,6 +113,14 @@ DIRECTED = {
         {"jobs": [{"name": n, "deps": [], "group": "g", "est": 1, "rc": 0} for n in ("a", "b", "c", "d")],
          "groups": [{"name": "g", "size": 1, "time": False, "try": True, "nproc": 1}], "max_nodes": 3, "hooks": {}, "node_cpus": 2},
         {"strategy": "submitter_first", "break_stale": True, "write_error": ["write:batch_config", 2]}),
+    # C03/C08: two batches run side by side; the node that finishes first consolidates the other node's result file
+    # while that node's second job ends: the row must not be lost (read and delete of a node file are one critical
+    # section with the node's appends)
+    "collector_reads_running_batch": (
+        {"jobs": [{"name": n, "deps": [], "group": "g", "est": 1, "rc": 0} for n in ("a", "b", "c", "d")],
+         "groups": [{"name": "g", "size": 2, "time": False, "try": True, "nproc": 1}], "max_nodes": 2, "hooks": {}, "node_cpus": 2},
+        {"strategy": "slow_finish", "finish_order": ["a", "c", "b", "d"],
+         "actions": [{"when": {"k": "site", "field": "site", "startswith": "read:results_batch_2"}, "do": "hold", "steps": 40}]}),
     # C11/C08: the append to processed_results.csv fails (quota exceeded) while a round consolidates a node file;
     # the rows must stay on disk (in the node file) and be picked up by a later round
     "collect_append_fails": (
@@ -148,7 +167,7 @@ def run_cases(cases, procs=None):
 # final-state oracles on impl (Python)
 # ---------------------------------------------------------------------------------------------
 def fault_free(plan, r):
-    acts = [a for a in plan.get("actions", []) if a["do"] not in ("try", "suspend", "resume", "strategy")]
+    acts = [a for a in plan.get("actions", []) if a["do"] not in ("try", "suspend", "resume", "strategy", "hold")]
     return not acts and not plan.get("sbatch_fail") and not plan.get("write_error") and not r["fired"] and plan.get("then_resubmit") is None
 
 
@@ -171,10 +190,17 @@ def final_oracles(sc, plan, r):
             rows.setdefault(ev["job"], (1, "canceled"))
     ref = sysrun.reference(sc)
     if ff and acyclic(sc):
+        hooked = [k for k, v in (sc.get("hooks") or {}).items() if v]
         if r["excs"] or r["stuck"]:
             probs.append(("C05", "fault-free-run-crashed", f"exceptions {r['excs'][:2]} stuck {r['stuck']}"))
+            if hooked:
+                # C16: the hook commands run at their documented points and the submission goes on: a teardown that
+                # exits non-zero is logged, it does not stop the completion
+                probs.append(("C16", "run-with-hooks-crashed", f"hooks {hooked} (exit codes {sc.get('hooks_rc') or {}}): exceptions {r['excs'][:2]} stuck {r['stuck']}"))
         elif not complete:
             probs.append(("C05", "no-completion", f"fault-free run not complete after {r['recoveries']} recovery rounds"))
+            if hooked:
+                probs.append(("C16", "run-with-hooks-not-complete", f"hooks {hooked} (exit codes {sc.get('hooks_rc') or {}}): not complete after {r['recoveries']} recovery rounds"))
         else:
             res, missing, summary = r["final"]
             if missing:
